@@ -63,8 +63,11 @@ def main():
     vLat = output.createVariable("lat", "f4", ("location",))
     vLon = output.createVariable("lon", "f4", ("location",))
     vElev = output.createVariable("altitude", "f4", ("location",))
-    vfcst = output.createVariable("fcst", "f4", ("time", "leadtime", "location"))
-    vobs = output.createVariable("obs", "f4", ("time", "leadtime", "location"))
+    # Only write the observations / forecasts the text file has (a file without obs is scored against another file's obs)
+    if input.fcst is not None:
+        vfcst = output.createVariable("fcst", "f4", ("time", "leadtime", "location"))
+    if input.obs is not None:
+        vobs = output.createVariable("obs", "f4", ("time", "leadtime", "location"))
 
     # Create nonstandard fields
     standard = [verif.field.Obs(), verif.field.Fcst()]
@@ -80,8 +83,10 @@ def main():
     output.standard_name = variable.name
     output.units = unit = variable.units.replace("$", "")
 
-    vobs[:] = input.obs
-    vfcst[:] = input.fcst
+    if input.obs is not None:
+        vobs[:] = input.obs
+    if input.fcst is not None:
+        vfcst[:] = input.fcst
     vTime[:] = input.times
     vOffset[:] = input.leadtimes
     vLocation[:] = [s.id for s in locations]
